@@ -72,6 +72,14 @@ Fixpoint key_pairs (fuel : nat) (args : list arg) : option (list (N * arg)) :=
 Fixpoint first_pair (k : N) (ps : list (N * arg)) : option arg :=
   match ps with [] => None | (k', v) :: ps' => if N.eqb k k' then Some v else first_pair k ps' end.
 
+(* a keyword argument is acceptable when it names a &key parameter or is :allow-other-keys; any keyword is
+   acceptable when the lambda list has &allow-other-keys or the call passes :allow-other-keys with a true
+   value (the first of several counts) - CLHS 3.4.1.4.1 *)
+Definition key_known (ks : list (N * option Z)) (k : N) : bool :=
+  existsb (fun kd => N.eqb (fst kd) k) ks || N.eqb k allow_kw.
+Definition keys_allowed (l : llist) (ps : list (N * arg)) : bool :=
+  l_allow l || match first_pair allow_kw ps with Some ANil => false | Some _ => true | None => false end.
+
 Definition bind_S (l : llist) (args : list arg) : outcome :=
   match bind_req (l_req l) args with
   | None => OErr KTooFew
@@ -88,7 +96,7 @@ Definition bind_S (l : llist) (args : list arg) : outcome :=
           match key_pairs (S (length r2)) r2 with
           | None => OErr KBadKey
           | Some ps =>
-              if negb (l_allow l) && negb (forallb (fun p => existsb (fun kd => N.eqb (fst kd) (fst p)) ks) ps) then OErr KBadKey
+              if negb (keys_allowed l ps) && negb (forallb (fun p => key_known ks (fst p)) ps) then OErr KBadKey
               else OBound (breq ++ bopt ++ brest ++
                            map (fun kd => (fst kd, match first_pair (fst kd) ps with Some v => arg_val v | None => def_val (snd kd) end)) ks ++ baux)
           end
@@ -96,29 +104,15 @@ Definition bind_S (l : llist) (args : list arg) : outcome :=
   end.
 
 (* ---- the guard ---- *)
-Definition no_dup_keys (ps : list (N * arg)) : bool :=
-  (fix go ps := match ps with [] => true | (k, _) :: ps' => negb (existsb (fun p => N.eqb (fst p) k) ps') && go ps' end) ps.
-(* an argument that &rest may collect when the lambda list has no &key: the code leaves rest mode at ANY
-   keyword naming a later parameter, and without &key the only later parameters are the &aux ones *)
-Definition rest_arg_ok (aux : list (N * option Z)) (a : arg) : bool :=
-  match a with AKw k => negb (existsb (fun xd => N.eqb (fst xd) k) aux) | _ => true end.
+(* The one place left where the repaired binder does not bind as the language prescribes: a lambda list with
+   both &rest and &key.  slip ends the rest list where the keyword arguments begin (its own TestDynamicAmps
+   asserts ((lambda (x &optional y &rest z &key k1 k2) ...) 1 2 3 4 :k1 5) => z = (3 4)); the language puts
+   ALL the remaining arguments in the rest list and takes the keys from that same list.  The two agree when
+   no argument is left after the positional ones. *)
 Definition guard_l (l : llist) (args : list arg) : bool :=
-  (length (l_req l) <=? length args) &&
-  (* &rest together with &key: the code's rest list stops at the first known keyword *)
-  negb (match l_rest l, l_key l with Some _, Some _ => true | _, _ => false end) &&
-  negb (l_allow l) &&
-  (* &rest with &aux: the code's rest list stops at a keyword that names an &aux parameter *)
-  (match l_rest l, l_key l with
-   | Some _, None => forallb (rest_arg_ok (l_aux l)) (skipn (length (l_req l) + length (l_opt l)) args)
-   | _, _ => true end) &&
-  match l_key l with
-  | None => true
-  | Some ks =>
-      let r2 := skipn (length (l_req l) + length (l_opt l)) args in
-      match key_pairs (S (length r2)) r2 with
-      | Some ps => forallb (fun p => existsb (fun kd => N.eqb (fst kd) (fst p)) ks) ps && no_dup_keys ps
-      | None => match r2 with (AInt _ | ANil) :: _ => true | _ => (length r2 <? 1) end    (* a non-keyword first: both reject *)
-      end
+  match l_rest l, l_key l with
+  | Some _, Some _ => (length args <=? length (l_req l) + length (l_opt l))%nat
+  | _, _ => true
   end.
 Definition in_domain (ds : list docarg) (args : list arg) : bool :=
   match parse_ll ds with
